@@ -101,7 +101,11 @@ class PolarizedRays(RealRays):
 
         # handle case when mag = 0 (i.e., k0 parallel to k1)
         if np.any(mag == 0):
-            s[mag == 0] = np.cross(k0[mag == 0], np.array([1.0, 0.0, 0.0]))
+            # undeviated ray: take the transverse axes of the launch field
+            # (_get_3d_electric_field): first axis (k x x) x k
+            kk = k0[mag == 0]
+            s[mag == 0] = np.cross(np.cross(kk, np.array([1.0, 0.0, 0.0])),
+                                   kk)
             mag = np.linalg.norm(s, axis=1)
 
         s /= mag[:, np.newaxis]
